@@ -57,9 +57,12 @@ def systematic():
                     root = {"type": "object", "properties": {"o": {"type": "object", "properties": {"e": e}, "required": ["e"]}}}
                 out.append(root)
     # inline enum types whose Go names collide
-    for a, b in ((["a", "b"], ["b", "c"]), ([1, 2], [2, 3]), (["x"], ["x", "y"])):
+    # (the last five: lists that differ only in the JSON type of their values, or in where one value ends, and read alike when printed)
+    for a, b in ((["a", "b"], ["b", "c"]), ([1, 2], [2, 3]), (["x"], ["x", "y"]), ([10, 20, 50], ["10", "20", "50"]), ([True, False], ["true", "false"]),
+                 ([1.5, "a"], ["1.5", "a"]), (["a b", "c"], ["a", "b c"]), ([1, 2], [1.0, 2.0, "1"])):
         out.append(collide_root({"enum": a}, {"enum": b}, key="e"))
-        out.append(collide_root({"type": "string" if isinstance(a[0], str) else "integer", "enum": b}, {"type": "string" if isinstance(a[0], str) else "integer", "enum": a}, key="e", required=True))
+        if all(type(x) is type(a[0]) for x in a + b):
+            out.append(collide_root({"type": "string" if isinstance(a[0], str) else "integer", "enum": b}, {"type": "string" if isinstance(a[0], str) else "integer", "enum": a}, key="e", required=True))
     return out
 
 
